@@ -17,8 +17,39 @@ def cur_values(world, h):
     return cur
 
 
+def kill_ops(world, h, max_kills=1):
+    """Interrupted builds: redo-ifchange of the world's first request, killed (whole tree) when a target's script reaches
+    a position -- every target x every position of its current script (start, after each dependency group, after the
+    output).  A kill is a deviation: histories contain at most `max_kills` of them."""
+    if sum(1 for op in h if op[0] == "kbuild") >= max_kills:
+        return []
+    from .refmodel import Model, candidates
+    from .worlds import DOFILES_ABSENT
+    var = {df: (None if df in DOFILES_ABSENT.get(world.name, []) else 0) for df in world.rules}
+    for op in h:
+        if op[0] == "dovar":
+            var[op[1]] = op[2]
+        elif op[0] == "dorm":
+            var[op[1]] = None
+    m = Model(world, [df for df, k in var.items() if k is None])
+    ops = []
+    req = world.requests[0]
+    for t in world.targets:
+        spec = None
+        for df, arg2 in candidates(t):
+            if var.get(df) is not None:
+                spec = world.rules[df][var[df]].subst(arg2)
+                break
+        if spec is None:
+            continue
+        n = len(m.script_deps(t, spec))
+        for pos in list(range(n + 1)) + ["e"]:
+            ops.append(["kbuild", [req], t, str(pos)])
+    return ops
+
+
 def std_alphabet(world, h, redo_targets=None, touch=True, rm_targets=True, dovar=True, ifchange_targets=None,
-                 keep_going=False, rm_sources=()):
+                 keep_going=False, rm_sources=(), kills=0):
     ops = []
     for t in (ifchange_targets or world.requests):
         ops.append(["ifchange", [t]])
@@ -46,6 +77,8 @@ def std_alphabet(world, h, redo_targets=None, touch=True, rm_targets=True, dovar
         for df in DOFILES_ABSENT.get(world.name, []):
             ops.append(["dovar", df, 0])     # create a higher-priority script
             ops.append(["dorm", df])         # remove it again
+    if kills:
+        ops += kill_ops(world, h, kills)
     return ops
 
 
